@@ -1,4 +1,4 @@
-import TinsModel.Wire.Chain.ParseLinkIp6
+import TinsModel.Wire.Chain.ParseLinkWifi
 /-
   **Whole-packet C03 over all covered families, as stated** — "if libtins accepts a byte string, parsing the serialization of
   the parsed packet yields the same stack of layers with the same field values, options and payload; only derived fields may
@@ -7,18 +7,26 @@ import TinsModel.Wire.Chain.ParseLinkIp6
   `StackableAll` is not an assumption about parsed packets: `parse_stackable_all` shows that whatever the nested parsing
   constructors build is representable, **except** for what `Residual` names explicitly — the accepted packets the statement
   does not hold for, or that the model does not cover:
-    * classes outside the covered families (App, Wifi) and the two capture pseudo-headers PPI / PKTAP (not serializable);
+    * the two capture pseudo-headers PPI / PKTAP (not serializable);
     * an IP datagram whose serialization does not fit the 16-bit total length (`hdr + size() ≥ 65536`: parsed with
       `tot_len = 0`, the TSO convention, from a buffer of 64 KiB or more), likewise IPv6 beyond a 16-bit payload length
-      (jumbograms);
+      (jumbograms), likewise an RC4EAPOL / RSNEAPOL frame beyond the 16-bit EAPOL length (`size() − 4 ≥ 65536`: only reachable
+      through the class-name constructors; `EAPOL::from_bytes` cuts the buffer at that length);
     * ICMP / ICMPv6 with an RFC 4884 extension structure, or an error message whose quote is not ghost-free: known
       findings KF-C03-Icmp-3/4 (the re-serialization pads the quote to 128 bytes and derives the length field, which moves
       where the re-parser looks for a structure); for ICMPv6 additionally the MLD / neighbour-discovery conditions of
       `icmp6_reparse_plain` (`BodyWire`, `OptsWire`, an MLDv1 query without MLDv2 members) are kept as hypotheses — the
       family does not export the lemma that parsing establishes them.
+  Nothing of the App family (ARP, STP, VXLAN, RTP, BootP, DHCP, DHCPv6) and — besides the EAPOL length bound — nothing of the
+  Wifi family (RadioTap, the 21 Dot11 classes and `Dot11::from_bytes`, RC4EAPOL, RSNEAPOL and `EAPOL::from_bytes`) is excluded.
+  (`EAPOL::from_bytes` returning a null pointer for an unknown key-descriptor type is not an accepted packet in the model:
+  the chain parser answers `unmodelled EAPOL:null`, never `.ok` — `eapolNull_unmodelled`.)
   Everything else is established by the constructors themselves: the invariants and serializability (`parsed_layers_good`),
-  wire-normal IP options, canonical TCP options, aligned IPv6 extension headers, a representable AH ICV, and the link of
-  every layer to its successor (`*_parse_linkA`) — IP fragments (payload kept as RawPDU) included.
+  wire-normal IP options, canonical TCP options, aligned IPv6 extension headers, a representable AH ICV, canonical DHCP /
+  DHCPv6 / Dot11 tagged options, RTP's `Canon`, BootP's 64-byte vendor area, the RadioTap header and flags condition
+  (`radiotap_parse_facts`), the EAPOL key bound, the entry name under which the re-parse reaches the same class
+  (`EntryName`: `Dot11*`, `EAPOL`, `EAPOL*` included), and the link of every layer to its successor (`*_parse_linkA`,
+  `app_parse_facts`, `dot11_parse_facts`, `eapol_parse_facts_all`) — IP fragments (payload kept as RawPDU) included.
 
   `IP::prepare_for_serialize()` replaces a source address 0.0.0.0 of a top-level IP by the address of the interface that
   routes to the destination; the wire model has no parameter for the host's routing table, so `c03_all` excludes such
@@ -47,23 +55,23 @@ def Residual (x : AnyObj) (r : List AnyObj) : Prop :=
       p.OptsWire (tailBytes r) ∧
       (Icmp.Icmp6.extAllowed p.type = true →
         Icmp.ghostFree (Icmp.byteAt (p.unBytes (Icmp.Icmp4.innerOf (sizeOfStack r))) 0 * 8) (tailBytes r))
-  | _ => False                                                  -- App, Wifi: not covered
+  | .app _ => True                                              -- ARP, STP, VXLAN, RTP, BootP, DHCP, DHCPv6: nothing excluded
+  | .wifi (.eapol e) => e.hdrSize + sizeOfStack r < 65540       -- fits the 16-bit EAPOL length field
+  | .wifi _ => True                                             -- RadioTap, the Dot11 classes: nothing excluded
 
 def ResidualAll : List AnyObj → Prop
   | [] => True
   | x :: r => Residual x r ∧ ResidualAll r
 
-theorem residual_cases (x : AnyObj) (r : List AnyObj) (h : Residual x r) : isRaw x = true ∨ Coverable x := by
-  cases x <;> first | exact .inl rfl | exact .inr trivial | exact h.elim
-
 /-- what parsing one layer establishes -/
 structure FirstOK (cls : String) (b : Bytes) (o : AnyObj) (inner : Inner) : Prop where
   inv : registryPreds.Inv o
   ser : registryPreds.Ser o
-  side : ∀ r, Residual o r → Side o r
+  side : ∀ r, Residual o r → (inner = .none → r = []) → Side o r
   link : LinkInnerA o inner
-  name : o.info.1 = cls
+  name : EntryName cls o
   nib : NibOf o b
+  cov : Coverable o
 
 theorem getD_take_zero (b : Bytes) (n : Nat) (hn : 0 < n) : (b.take n).getD 0 0 = b.getD 0 0 := by
   cases b with
@@ -153,55 +161,76 @@ theorem icmp6_parse_small (b : Bytes) (p : Icmp.Icmp6) (i : Inner) (h : Icmp.Icm
   subst hq
   exact ⟨readU8_lt _ _ _ h1, readU8_lt _ _ _ h2'⟩
 
-/-- **parsing one layer of a covered class establishes everything `LayerOK` asks for, up to `Residual`** -/
+/-- **parsing one layer of any class establishes everything `LayerOK` asks for, up to `Residual`** -/
 theorem parseOne_firstOK (cls : String) (b : Bytes) (o : AnyObj) (inner : Inner) (hb : b.length < 4294967296)
-    (hcov : Coverable o) (hl2 : ∀ z, o = .l2 z → L2.Serializable z) (h : parseOne cls b = .ok (o, inner)) :
+    (hnr : isRaw o = false) (hl2 : ∀ z, o = .l2 z → L2.Serializable z) (h : parseOne cls b = .ok (o, inner)) :
     FirstOK cls b o inner := by
   have hgood := parseOne_good registryParseFacts cls b o inner hb h
   rcases parseOne_cases cls b o inner h with ⟨_, ho, _⟩ | ⟨x, hc, hx, ho⟩ | ⟨x, hc, hx, ho⟩ | ⟨x, hc, hx, ho⟩ | ⟨x, hc, hx, ho⟩ |
     ⟨x, hc, hx, ho⟩ | ⟨x, hc, hx, ho⟩ | ⟨x, hc, hx, ho⟩ <;> subst ho
-  · exact hcov.elim
+  · cases hnr
   · -- L2
     have hs := hl2 x rfl
     have hlk := L2.l2_parse_link cls b x inner hc hx hs
-    exact ⟨hgood.1, hs, fun _ _ => trivial, l2_parse_linkA cls b x inner hc hx hs, hlk.2.1, trivial⟩
+    exact ⟨hgood.1, hs, fun _ _ _ => trivial, l2_parse_linkA cls b x inner hc hx hs, .inl hlk.2.1.symm, trivial, trivial⟩
   · -- Ip
     have hser := Ip.ip_parse_serializable cls b x inner hc hx
     simp only [Ip.classes, List.mem_cons, List.mem_nil_iff, or_false] at hc
     rcases hc with hc | hc | hc <;> subst hc <;> simp only [Ip.parse] at hx <;>
       rcases Ip.map_ok hx with ⟨⟨y, j⟩, hy, hr⟩ <;> injection hr with e1 e2 <;> subst e1 <;> subst e2
-    · exact ⟨hgood.1, hser, fun r hr => ⟨(Ip.ip4_parse_inv b y j hy).2.1, hr⟩, ip4_parse_linkA b y j hy, rfl,
-        ip4_parse_version b y j hy⟩
-    · exact ⟨hgood.1, hser, fun _ _ => (Ip.ah_parse_inv b y j hy).2, ah_parse_linkA b y j hy, rfl, trivial⟩
-    · exact ⟨hgood.1, hser, fun _ _ => trivial, esp_parse_linkA b y j hy, rfl, trivial⟩
+    · exact ⟨hgood.1, hser, fun r hr _ => ⟨(Ip.ip4_parse_inv b y j hy).2.1, hr⟩, ip4_parse_linkA b y j hy, .inl rfl,
+        ip4_parse_version b y j hy, trivial⟩
+    · exact ⟨hgood.1, hser, fun _ _ _ => (Ip.ah_parse_inv b y j hy).2, ah_parse_linkA b y j hy, .inl rfl, trivial, trivial⟩
+    · exact ⟨hgood.1, hser, fun _ _ _ => trivial, esp_parse_linkA b y j hy, .inl rfl, trivial, trivial⟩
   · -- Ip6
     simp only [Ip6.classes, List.mem_cons, List.mem_nil_iff, or_false] at hc
     subst hc
     simp only [Ip6.parse] at hx
     rcases Ip.map_ok hx with ⟨⟨y, j⟩, hy, hr⟩
     injection hr with e1 e2; subst e1; subst e2
-    exact ⟨hgood.1, trivial, fun r hr => ⟨(Ip6.ipv6_parse_inv b y j hy).2, hr⟩, ip6_parse_linkA b y j hy, rfl,
-      ip6_parse_version b y j hy⟩
+    exact ⟨hgood.1, trivial, fun r hr _ => ⟨(Ip6.ipv6_parse_inv b y j hy).2, hr⟩, ip6_parse_linkA b y j hy, .inl rfl,
+      ip6_parse_version b y j hy, trivial⟩
   · -- Icmp
     have hser := Icmp.icmp_family_parse_serializable cls b x inner hc hb hx
     simp only [Icmp.classes, List.mem_cons, List.mem_nil_iff, or_false] at hc
     rcases hc with hc | hc <;> subst hc <;> simp only [Icmp.parse] at hx <;>
       rcases Ip.map_ok hx with ⟨⟨y, j⟩, hy, hr⟩ <;> injection hr with e1 e2 <;> subst e1 <;> subst e2
-    · exact ⟨hgood.1, hser, fun _ hr => ⟨icmp_parse_small b y j hy, hr.1, hr.2⟩, icmp_parse_linkA b y j hy, rfl, trivial⟩
-    · exact ⟨hgood.1, hser, fun _ hr => ⟨icmp6_parse_small b y j hy, hr.1, hr.2⟩, icmp6_parse_linkA b y j hy, rfl, trivial⟩
+    · exact ⟨hgood.1, hser, fun _ hr _ => ⟨icmp_parse_small b y j hy, hr.1, hr.2⟩, icmp_parse_linkA b y j hy, .inl rfl, trivial,
+        trivial⟩
+    · exact ⟨hgood.1, hser, fun _ hr _ => ⟨icmp6_parse_small b y j hy, hr.1, hr.2⟩, icmp6_parse_linkA b y j hy, .inl rfl, trivial,
+        trivial⟩
   · -- Transport
     have hser := Transport.transport_parse_serializable cls b x inner hc hx
     simp only [Transport.classes, List.mem_cons, List.mem_nil_iff, or_false] at hc
     rcases hc with hc | hc <;> subst hc <;> simp only [Transport.parse] at hx <;>
       rcases Ip.map_ok hx with ⟨⟨y, j⟩, hy, hr⟩ <;> injection hr with e1 e2 <;> subst e1 <;> subst e2
-    · exact ⟨hgood.1, hser, fun _ _ => trivial, udp_parse_linkA b y j hy, rfl, trivial⟩
-    · exact ⟨hgood.1, hser, fun _ _ => (Transport.tcp_parse_ok b y j hy).2.1, tcp_parse_linkA b y j hy, rfl, trivial⟩
-  · exact hcov.elim
-  · exact hcov.elim
+    · exact ⟨hgood.1, hser, fun _ _ _ => trivial, udp_parse_linkA b y j hy, .inl rfl, trivial, trivial⟩
+    · exact ⟨hgood.1, hser, fun _ _ _ => (Transport.tcp_parse_ok b y j hy).2.1, tcp_parse_linkA b y j hy, .inl rfl, trivial,
+        trivial⟩
+  · -- App
+    have hser := App.app_parse_serializable cls b x inner hc hb hx
+    obtain ⟨hside, hlink, hname⟩ := app_parse_facts cls b x inner hc hx
+    refine ⟨hgood.1, hser, fun r _ _ => hside r, hlink, .inl hname.symm, ?_, ?_⟩
+    · cases x <;> trivial
+    · cases x <;> trivial
+  · -- Wifi
+    have hser := Wifi.wifi_parse_serializable cls b x inner hc hb hx
+    cases x with
+    | dot11 d =>
+      obtain ⟨hside, hlink, hname⟩ := dot11_parse_facts cls b d inner hc hx
+      exact ⟨hgood.1, hser, fun r _ _ => hside r, hlink, hname, trivial, (hside []).2⟩
+    | eapol e =>
+      obtain ⟨hk, hsh, hlink, hname⟩ := eapol_parse_facts_all cls b e inner hx
+      exact ⟨hgood.1, hser, fun r hr hin => ⟨hk, fun hke => (hsh hke).imp id hin, hr⟩, hlink, hname, trivial, trivial⟩
+    | radiotap t =>
+      obtain ⟨hcls, hp⟩ := wifi_parse_radiotap cls b t inner hx
+      obtain ⟨hside, hlink⟩ := radiotap_parse_facts b t inner hp
+      exact ⟨hgood.1, hser, fun _ _ _ => hside, hlink, .inl hcls, trivial, trivial⟩
 
-/-- the first layer of a parsed chain is of the class whose constructor was called, and an IP / IPv6 header's version is
-    the first nibble of the buffer -/
-def HeadOfA (cls : String) (b : Bytes) (h : AnyObj) : Prop := h.info.1 = cls ∧ NibOf h b
+/-- the first layer of a parsed chain is of a class the entry `cls` reaches (`EntryName`: the class itself, or the one a
+    factory entry selected from the bytes), an IP / IPv6 header's version is the first nibble of the buffer, and the layer
+    is of a class of the covered families -/
+def HeadOfA (cls : String) (b : Bytes) (h : AnyObj) : Prop := EntryName cls h ∧ NibOf h b ∧ (isRaw h = false → Coverable h)
 
 /-- **what libtins accepts is representable** (up to `Residual`): a chain the nested parsing constructors build is
     `StackableAll` -/
@@ -224,42 +253,33 @@ theorem parse_stackable_all : ∀ (fuel : Nat) (cls : String) (b : Bytes) (os : 
         rw [hp] at h
         simp only at h
         -- the first layer, once we know what follows it
-        have hfirst : ∀ rest, os = o :: rest →
+        have hfirst : ∀ rest, os = o :: rest → (inner = .none → rest = []) →
             (isRaw o = false ∧ FirstOK cls b o inner ∧ Side o rest) ∨ (∃ p, o = .raw p ∧ cls = "RawPDU" ∧ inner = .none) := by
-          intro rest hos
+          intro rest hos hin
           subst hos
           have hr : Residual o rest := hres.1
-          cases o with
-          | raw p => exact .inr ⟨p, rfl, L2.parseOne_raw_inv cls b p inner hp⟩
-          | l2 z =>
-            have hf := parseOne_firstOK cls b (.l2 z) inner hb trivial (fun z' e => by injection e with e; subst e; exact hr) hp
-            exact .inl ⟨rfl, hf, hf.side rest hr⟩
-          | ip z =>
-            have hf := parseOne_firstOK cls b (.ip z) inner hb trivial (fun z' e => by cases e) hp
-            exact .inl ⟨rfl, hf, hf.side rest hr⟩
-          | ip6 z =>
-            have hf := parseOne_firstOK cls b (.ip6 z) inner hb trivial (fun z' e => by cases e) hp
-            exact .inl ⟨rfl, hf, hf.side rest hr⟩
-          | tr z =>
-            have hf := parseOne_firstOK cls b (.tr z) inner hb trivial (fun z' e => by cases e) hp
-            exact .inl ⟨rfl, hf, hf.side rest hr⟩
-          | icmp z =>
-            have hf := parseOne_firstOK cls b (.icmp z) inner hb trivial (fun z' e => by cases e) hp
-            exact .inl ⟨rfl, hf, hf.side rest hr⟩
-          | app z => exact hr.elim
-          | wifi z => exact hr.elim
+          cases ho : isRaw o with
+          | true =>
+            cases o with
+            | raw p => exact .inr ⟨p, rfl, L2.parseOne_raw_inv cls b p inner hp⟩
+            | _ => cases ho
+          | false =>
+            have hf := parseOne_firstOK cls b o inner hb ho (fun z e => by subst e; exact hr) hp
+            exact .inl ⟨rfl, hf, hf.side rest hr hin⟩
         cases inner with
         | none =>
           injection h with h
           subst h
-          rcases hfirst [] rfl with ⟨hx, hf, hside⟩ | ⟨p, rfl, hc, _⟩
-          · refine ⟨(stackableAll_cons hx).mpr ⟨⟨hf.inv, hf.ser, hside, hf.link⟩, trivial⟩, _, _, rfl, hf.name, hf.nib⟩
-          · exact ⟨rfl, _, _, rfl, hc.symm, trivial⟩
+          rcases hfirst [] rfl (fun _ => rfl) with ⟨hx, hf, hside⟩ | ⟨p, rfl, hc, _⟩
+          · exact ⟨(stackableAll_cons hx).mpr ⟨⟨hf.inv, hf.ser, hside, hf.link⟩, trivial⟩, _, _, rfl, hf.name, hf.nib,
+              fun _ => hf.cov⟩
+          · exact ⟨rfl, _, _, rfl, .inl hc, trivial, fun h => by cases h⟩
         | raw pb =>
           injection h with h
           subst h
-          rcases hfirst [.raw pb] rfl with ⟨hx, hf, hside⟩ | ⟨p, rfl, _, hi⟩
-          · refine ⟨(stackableAll_cons hx).mpr ⟨⟨hf.inv, hf.ser, hside, hf.link⟩, rfl⟩, _, _, rfl, hf.name, hf.nib⟩
+          rcases hfirst [.raw pb] rfl (fun h => by cases h) with ⟨hx, hf, hside⟩ | ⟨p, rfl, _, hi⟩
+          · exact ⟨(stackableAll_cons hx).mpr ⟨⟨hf.inv, hf.ser, hside, hf.link⟩, rfl⟩, _, _, rfl, hf.name, hf.nib,
+              fun _ => hf.cov⟩
           · cases hi
         | cls name pb fb =>
           simp only at h
@@ -269,18 +289,19 @@ theorem parse_stackable_all : ∀ (fuel : Nat) (cls : String) (b : Bytes) (os : 
             rw [hrec] at h
             injection h with h
             subst h
-            rcases hfirst ls rfl with ⟨hx, hf, hside⟩ | ⟨p, rfl, _, hi⟩
+            rcases hfirst ls rfl (fun h => by cases h) with ⟨hx, hf, hside⟩ | ⟨p, rfl, _, hi⟩
             · rcases ih name pb ls (by omega) hrec hres.2 with ⟨hst, hd, t, rfl, hhd⟩
               obtain ⟨_, hnr, hlk⟩ := hf.link
-              have hrd : Residual hd t := hres.2.1
-              have hcovd : Coverable hd := by
-                rcases residual_cases hd t hrd with hraw | hc
-                · cases hd with
-                  | raw p => exact absurd hhd.1.symm hnr
-                  | _ => cases hraw
-                · exact hc
-              exact ⟨(stackableAll_cons hx).mpr ⟨⟨hf.inv, hf.ser, hside, hlk hd t hhd.1 hcovd hhd.2⟩, hst⟩, _, _, rfl,
-                hf.name, hf.nib⟩
+              have hdraw : isRaw hd = false := by
+                cases hd with
+                | raw p =>
+                  exfalso
+                  rcases hhd.1 with hh | hh
+                  · exact hnr hh
+                  · exact hh.elim
+                | _ => rfl
+              exact ⟨(stackableAll_cons hx).mpr ⟨⟨hf.inv, hf.ser, hside, hlk hd t hhd.1 (hhd.2.2 hdraw) hhd.2.1⟩, hst⟩, _, _, rfl,
+                hf.name, hf.nib, fun _ => hf.cov⟩
             · cases hi
           | unmodelled c => rw [hrec] at h; cases h
           | fault s => rw [hrec] at h; cases h
@@ -291,7 +312,7 @@ theorem parse_stackable_all : ∀ (fuel : Nat) (cls : String) (b : Bytes) (os : 
             · rename_i hfb
               injection h with h
               subst h
-              rcases hfirst [.raw pb] rfl with ⟨hx, hf, _⟩ | ⟨p, rfl, _, hi⟩
+              rcases hfirst [.raw pb] rfl (fun h => by cases h) with ⟨hx, hf, _⟩ | ⟨p, rfl, _, hi⟩
               · rw [hf.link.1] at hfb
                 simp at hfb
               · cases hi
@@ -312,8 +333,7 @@ theorem c03_all (cls : String) (b : Bytes) (os : List AnyObj) (hb : b.length < 4
       ∃ os', parseChain (out.length + 2) cls out = .ok os' ∧ ViewEqAll (padAll os) os os' := by
   rcases parse_stackable_all _ cls b os hb hparse hres with ⟨hst, h, t, rfl, hhd⟩
   rcases stackableAll_serializes _ hst with ⟨out, hser, _⟩
-  rcases chain_reparse_all h t hst out hser with ⟨os', hp, hv⟩
-  rw [hhd.1] at hp
+  rcases chain_reparse_all_named cls h t hhd.1 hst out hser with ⟨os', hp, hv⟩
   exact ⟨out, hser, os', hp, hv⟩
 
 /-- … and through IP / IPv6 the payload comes back byte for byte, whatever minimum-frame padding the link layer added -/
